@@ -7,6 +7,11 @@
 (*   id    run number                                                      *)
 (*   mode, st (0/1 sticky), p (piece; -1 = random re-chunking), k (cap)    *)
 (*         the behaviour the instrumented writer was asked to show         *)
+(*   f0    1 if the writer is shared with an earlier call of the history   *)
+(*         and failed there (k is then what was left of its capacity when  *)
+(*         this call started; off/acc/err, dlen, lcp are those of THIS     *)
+(*         call; err and e count the calls of this WriteTo: an error value *)
+(*         returned to an earlier WriteTo is -1)                           *)
 (*   ifs   the optional interfaces the instrumented writer implements      *)
 (*         beside io.Writer (subset of StringWriter, ByteWriter,           *)
 (*         ReaderFrom), as Go's type assertions see it                     *)
@@ -52,7 +57,8 @@ EXTENDS Integers, Sequences, TLC, Json
 
 W == INSTANCE Writer WITH MaxChunks <- 0, UnitSizes <- {0}, UnitKinds <- {"fmt"}, IfaceSets <- {{}}, Route <- "fmt", MaxWrite <- 0,
        PieceCount <- "piece", LatchBy <- "test", CachedViews <- FALSE, LatchError <- TRUE, CountAccepted <- TRUE,
-       KeepFirstError <- FALSE, Modes <- {}, Pieces <- {}, GivenFile <- "", MaxCalls <- 1, LaterModes <- {}, FreshPerCall <- TRUE,
+       KeepFirstError <- FALSE, LatchOn <- "err", Modes <- {}, Pieces <- {}, GivenFile <- "", MaxCalls <- 1, LaterModes <- {}, FreshPerCall <- TRUE,
+       ShareChoices <- {FALSE}, PerWriterWrapper <- FALSE,
        stage <- "cfg", w <- 0, chunks <- <<>>, kinds <- <<>>, fw <- 0, obs <- 0, delivered <- <<>>, sess <- 0
 
 Trace == ndJsonDeserialize("writer_rec.ndjson")
@@ -63,7 +69,7 @@ NB == (N + BlockSize - 1) \div BlockSize
 Ifs(r) == {r.ifs[i] : i \in DOMAIN r.ifs}
 Method(v) == <<"Write", "WriteString", "WriteByte", "ReadFrom">>[v + 1]
 Writer0(r) == [mode |-> r.mode, sticky |-> r.st = 1, piece |-> IF r.p < 0 THEN 0 ELSE r.p,
-               cap |-> r.k, cap0 |-> r.k, failed |-> FALSE, src |-> 0, ifs |-> Ifs(r)]
+               cap |-> r.k, cap0 |-> r.k, failed |-> r.f0 = 1, failed0 |-> r.f0 = 1, src |-> 0, ifs |-> Ifs(r)]
 
 \* fold the log: implementation state f, observer o, writer model wr, equipment flag ok
 RECURSIVE Fold(_, _, _, _, _, _)
